@@ -18,6 +18,48 @@ std::vector<std::array<int,4> > quad_tuples(int M, bool all) {
 // allowance for terms the library documents it drops (|residue| <= 1e-8) : generous, basis independent
 double drop_allow(int D, double mindist) { return D * D * 2e-8 / std::max(mindist, 1e-8); }
 
+
+// ---- the three ways of supplying <A>,<B> as a call history: BFS over histories of two EnsembleAverage objects shared by two
+//      Susceptibility objects (prepare() any number of times, by the user or inside subtractDisconnected; the averages handed to a
+//      second susceptibility; the other overloads in between).  In every state: an average that was prepared equals <A>; a
+//      susceptibility with subtraction enabled differs from the plain one by beta<A><B> at W_0, by <A><B> in of_tau, by nothing at W_1.
+void averages_histories(const Args& a, Recorder& rec, Clock& clk) {
+    std::vector<PlanItem> plan; for (const char* sid : { "S1", "S2", "S4" }) { PlanItem it; it.shape = sid; it.depth = 1; it.opts.rich = false; plan.push_back(it); }
+    int maxdepth = a.thorough() ? 5 : 4; double beta = 3;
+    for_each_state(a, rec, plan, [&](Ctx& c) {
+        if (stage_states(c, rec, SYM_DEFAULT, 0, false) != ST_OK) return;
+        Pipe& P = c.P; int M = P.M; P.make_hamiltonian(); P.make_rho(beta); refed::Spectrum sp = refed::diagonalize(c.Href, beta);
+        std::vector<std::array<int,4> > pairs = { {{0, 0, 0, 0}}, {{0, 0, M - 1, M - 1}}, {{0, M - 1, M - 1, 0}} };
+        for (auto& t : pairs) {
+            QuadraticOperator QA(*P.IC, *P.S, *P.H, t[0], t[1]), QB(*P.IC, *P.S, *P.H, t[2], t[3]); QA.prepare(); QA.compute(); QB.prepare(); QB.compute();
+            cd avA = refed::thermal_avg(sp, refed::to_eigenbasis(sp, refed::cdag_op(M, t[0]) * refed::c_op(M, t[1]))), avB = refed::thermal_avg(sp, refed::to_eigenbasis(sp, refed::cdag_op(M, t[2]) * refed::c_op(M, t[3])));
+            Susceptibility X0(*P.S, *P.H, QA, QB, *P.rho); X0.prepare(); X0.compute(); cd p0 = X0(0), p1 = X0(1), pt = X0.of_tau(beta / 3);
+            const char* names[6] = { "EA.prepare()", "EB.prepare()", "X1.subtractDisconnected(EA,EB)", "X2.subtractDisconnected(EA,EB)", "X1.subtractDisconnected()", "X2.subtractDisconnected(<A>,<B>)" };
+            std::string base = c.repr + " | chi(" + std::to_string(t[0]) + std::to_string(t[1]) + "," + std::to_string(t[2]) + std::to_string(t[3]) + ") beta=3 | averages: ";
+            auto replay = [&](const std::vector<int>& h, std::string& key) {
+                EnsembleAverage EA(*P.S, *P.H, QA, *P.rho), EB(*P.S, *P.H, QB, *P.rho); bool pa = false, pb = false, s1 = false, s2 = false;
+                Susceptibility X1(*P.S, *P.H, QA, QB, *P.rho), X2(*P.S, *P.H, QA, QB, *P.rho); X1.prepare(); X1.compute(); X2.prepare(); X2.compute();
+                std::string hr = base; for (size_t k = 0; k < h.size(); ++k) { hr += (k ? ";" : ""); hr += names[h[k]]; }
+                for (int o : h) { switch (o) { case 0: EA.prepare(); pa = true; break; case 1: EB.prepare(); pb = true; break; case 2: X1.subtractDisconnected(EA, EB); pa = pb = s1 = true; break;
+                    case 3: X2.subtractDisconnected(EA, EB); pa = pb = s2 = true; break; case 4: X1.subtractDisconnected(); s1 = true; break; case 5: X2.subtractDisconnected(ComplexType(avA), ComplexType(avB)); s2 = true; break; } }
+                rec.evaluations++; double sc = 1 + std::abs(avA) + std::abs(avB), tol = 1e-9 * sc + 1e-10;
+                if (pa && std::abs(EA.getResult() - avA) > tol) rec.violation("C14:average-history:ensemble-average", "an ensemble average changes with the number of prepare() calls / with being handed to subtractDisconnected", hr + " <A>");
+                if (pb && std::abs(EB.getResult() - avB) > tol) rec.violation("C14:average-history:ensemble-average", "an ensemble average changes with the number of prepare() calls / with being handed to subtractDisconnected", hr + " <B>");
+                Susceptibility* Xs[2] = { &X1, &X2 }; bool sub[2] = { s1, s2 };
+                for (int k = 0; k < 2; ++k) { cd d0 = sub[k] ? avA * avB * beta : cd(0), dt = sub[k] ? avA * avB : cd(0); double tl = 1e-8 * (1 + std::abs(d0) + std::abs(p0));
+                    if (std::abs((p0 - (*Xs[k])(0)) - d0) > tl) rec.violation("C14:average-history:static", "the subtracted term at W_0 is not beta<A><B> after this call history", hr + " X" + std::to_string(k + 1));
+                    if (std::abs(p1 - (*Xs[k])(1)) > tl) rec.violation("C14:average-history:dynamic", "subtraction changes a finite-frequency value after this call history", hr + " X" + std::to_string(k + 1));
+                    if (std::abs((pt - Xs[k]->of_tau(beta / 3)) - dt) > tl) rec.violation("C14:average-history:of_tau", "the subtracted term in of_tau is not <A><B> after this call history", hr + " X" + std::to_string(k + 1)); }
+                std::ostringstream ks; ks.precision(12); ks << EA.getStatus() << EA.getResult() << EB.getStatus() << EB.getResult() << X1.SubtractDisconnected << X1.ave_A << X1.ave_B << X2.SubtractDisconnected << X2.ave_A << X2.ave_B; key = ks.str();
+            };
+            std::unordered_set<std::string> seen; std::vector<std::vector<int> > frontier(1), next; { std::string k; replay(frontier[0], k); seen.insert(k); rec.counters["average_states"]++; }
+            for (int d = 0; d < maxdepth; ++d) { next.clear();
+                for (auto& h : frontier) for (int o = 0; o < 6; ++o) { std::vector<int> h2 = h; h2.push_back(o); std::string k; replay(h2, k); rec.counters["average_transitions"]++; if (seen.insert(k).second) { next.push_back(h2); rec.counters["average_states"]++; } }
+                frontier.swap(next); }
+        }
+    }, clk);
+}
+
 int run_c14(const Args& a, Recorder& rec) {
     Clock clk; std::vector<double> betas = { 1, 10, 1e3 }; if (a.thorough()) { betas.push_back(40); betas.push_back(200); }      // 1e3: beta x level spacing beyond the exp() overflow threshold
     std::vector<PlanItem> plan = plan_modelspace(a, "g");
@@ -65,6 +107,7 @@ int run_c14(const Args& a, Recorder& rec) {
             }
         }
     }, clk);
+    averages_histories(a, rec, clk);
     return 0;
 }
 
